@@ -96,7 +96,9 @@ def clause_a(c: Check):
     for vname, pos_op, inv_op in (('visit_conjunction', inter, union), ('visit_disjunction', union, inter)):
         f = ix.class_member(comp, vname)
         it = Interp(ix, fo, H())
-        for p in it.run_function(f):
+        # two explicit operands: the lists built from them are known whether written as comprehensions or loops
+        operands = ListVal([Sym('operand0', nullness=False), Sym('operand1', nullness=False)])
+        for p in it.run_function(f, {f.positional_params()[1].arg: operands}):
             n_paths += 1
             roots = [p.val] if p.kind == 'return' else []
             for e in p.calls():
